@@ -17,7 +17,7 @@ def main():
         ok = False
     mods = sorted(p for p in SPEC.glob("*.tla"))
     procs = []
-    jtmp = tempfile.mkdtemp(prefix="eko-verif-sany-")   # SANY unpacks library modules into java.io.tmpdir
+    jtmp = tempfile.mkdtemp(prefix="verif-eko-sany-")   # SANY unpacks library modules into java.io.tmpdir
     for m in mods:
         procs.append((m, subprocess.Popen(
             ["java", f"-Djava.io.tmpdir={jtmp}", "-cp", TLA_CP, "tla2sany.SANY", m.name], cwd=str(SPEC),
